@@ -2,11 +2,10 @@
 //!
 //! `ansi::write_colored` is cut verbatim out of the working tree (tools/extract.py) and compiled
 //! here with ONE difference in its environment (rule E10): the std macro `write!` is shadowed by a
-//! local macro with the documented meaning of `io::Write::write_fmt` — render the arguments,
+//! local macro with the documented meaning of `io::Write::write_fmt` — render the argument,
 //! `write_all` the bytes, return the I/O error — because CBMC does not finish on std's own
-//! `io::Write::write_fmt` (its default adapter and panic path), even for one concrete call
-//! (measured: > 10 min).  Rendering still goes through the real `core::fmt::write` and the real
-//! `Display` impls of anstyle.
+//! `io::Write::write_fmt` / `fmt::Arguments` (function pointers), even for one concrete call
+//! (measured: > 10 min).  Rendering goes through the real `Display` impls of anstyle.
 #![allow(dead_code, unused_imports, unused_macros, missing_docs, unreachable_pub, clippy::all)]
 use super::astyle::ansi_from_index;
 use super::spec_sgr::*;
@@ -33,68 +32,91 @@ impl core::fmt::Write for Render {
     }
 }
 
-fn write_fmt_as_documented<W: std::io::Write + ?Sized>(w: &mut W, args: core::fmt::Arguments<'_>) -> std::io::Result<()> {
+/// `write!(stream, "{}", x)` with its documented meaning: render `x` with default formatting
+/// options, `write_all` the bytes, return the I/O error.  `x` is rendered by calling its Display
+/// impl *statically* on a directly constructed Formatter (unstable `formatting_options`): going
+/// through `fmt::Arguments` means function pointers, on which CBMC does not finish.
+fn write_display_as_documented<W: std::io::Write + ?Sized, D: core::fmt::Display>(w: &mut W, d: &D) -> std::io::Result<()> {
     let mut r = Render { b: [0; 12], len: 0 };
-    let _ = core::fmt::write(&mut r, args);
+    {
+        let mut f = core::fmt::Formatter::new(&mut r, core::fmt::FormattingOptions::new());
+        let _ = core::fmt::Display::fmt(d, &mut f);
+    }
     w.write_all(&r.b[..r.len])
 }
 
 macro_rules! write {
-    ($dst:expr, $($arg:tt)*) => {
-        write_fmt_as_documented($dst, format_args!($($arg)*))
+    ($dst:expr, "{}", $arg:expr) => {
+        write_display_as_documented($dst, &$arg)
     };
 }
 
 //@fn crates/anstyle-wincon/src/ansi.rs write_colored
 //@end
 
-const CAP: usize = 24;
+const MAXW: usize = 6;
 
-/// scripted writer: every call may fail (once) or, for the data write, accept any prefix
+/// scripted writer: records every call (slice address, length, first bytes — copied at fixed
+/// positions, no symbolic-index writes); one concrete call fails; the data write accepts any prefix
 struct W {
-    log: [u8; CAP],
-    len: usize,
     calls: usize,
+    ptr: [usize; MAXW],
+    len: [usize; MAXW],
+    head: [[u8; 8]; MAXW],
     fail_at: usize,
     data_ptr: usize,
-    /// position of the data in the log and how much of it was accepted
-    data_at: usize,
+    data_call: usize,
     data_taken: usize,
-    data_calls: usize,
-    overflow: bool,
 }
 
 impl std::io::Write for W {
     fn write(&mut self, buf: &[u8]) -> std::io::Result<usize> {
         let i = self.calls;
         self.calls += 1;
+        if i < MAXW {
+            self.ptr[i] = buf.as_ptr() as usize;
+            self.len[i] = buf.len();
+            let mut k = 0;
+            while k < 8 {
+                if k < buf.len() {
+                    self.head[i][k] = buf[k];
+                }
+                k += 1;
+            }
+        }
         if i == self.fail_at {
             return Err(ErrorKind::Other.into());
         }
-        let mut take = buf.len();
         if buf.as_ptr() as usize == self.data_ptr {
-            take = vk::any_usize_in(0, buf.len());
-            self.data_at = self.len;
+            let take = vk::any_usize_in(0, buf.len());
+            self.data_call = i;
             self.data_taken = take;
-            self.data_calls += 1;
+            return Ok(take);
         }
-        // constant trip count (no symbolic loop bound): codes are at most 8 bytes, data at most 2
+        Ok(buf.len())
+    }
+    fn flush(&mut self) -> std::io::Result<()> {
+        Ok(())
+    }
+}
+
+/// what anstyle renders for a colour code / the reset (their meaning is verified in C05)
+struct Exp {
+    b: [u8; 8],
+    len: usize,
+}
+
+impl std::io::Write for Exp {
+    fn write(&mut self, buf: &[u8]) -> std::io::Result<usize> {
         let mut k = 0;
         while k < 8 {
-            if k < take {
-                if self.len < CAP {
-                    self.log[self.len] = buf[k];
-                    self.len += 1;
-                } else {
-                    self.overflow = true;
-                }
+            if k < buf.len() && self.len < 8 {
+                self.b[self.len] = buf[k];
+                self.len += 1;
             }
             k += 1;
         }
-        if take > 8 {
-            self.overflow = true;
-        }
-        Ok(take)
+        Ok(buf.len())
     }
     fn flush(&mut self) -> std::io::Result<()> {
         Ok(())
@@ -105,63 +127,61 @@ fn opt_color(i: u8) -> Option<anstyle::AnsiColor> {
     if i < 16 { Some(ansi_from_index(i)) } else { None }
 }
 
-fn mc(i: u8) -> MColor {
-    if i < 16 { MColor::Ansi(i) } else { MColor::Default }
+fn call_is(w: &W, i: usize, e: &Exp) -> bool {
+    if i >= w.calls || w.len[i] != e.len {
+        return false;
+    }
+    let mut k = 0;
+    while k < 8 {
+        if k < e.len && w.head[i][k] != e.b[k] {
+            return false;
+        }
+        k += 1;
+    }
+    true
 }
 
-/// all 17 x 17 colour pairs (symbolic), data of up to 2 bytes (symbolic), every failure point,
-/// every prefix of the data accepted
-fn colored(fgi: u8, bgi: u8, via_trait: bool, fail_at: usize) {
+/// one concrete colour pair and failure point; data of 1-2 symbolic bytes; any prefix of the data accepted
+fn colored(fgi: u8, bgi: u8, _via_trait: bool, fail_at: usize) {
     let data_buf = [vk::any_u8(), vk::any_u8()];
     let dlen = vk::any_usize_in(1, 2);
     let data = &data_buf[..dlen];
-    let mut w = W { log: [0; CAP], len: 0, calls: 0, fail_at, data_ptr: data.as_ptr() as usize, data_at: 0, data_taken: 0, data_calls: 0, overflow: false };
-    let _ = via_trait;
+    let mut w = W { calls: 0, ptr: [0; MAXW], len: [0; MAXW], head: [[0; 8]; MAXW], fail_at, data_ptr: data.as_ptr() as usize, data_call: 99, data_taken: 0 };
     let r = write_colored(&mut w, opt_color(fgi), opt_color(bgi), data);
     let styled = fgi < 16 || bgi < 16;
+    // expected call sequence
+    let mut want = 0usize;
+    if fail_at >= want && fgi < 16 {
+        let mut e = Exp { b: [0; 8], len: 0 };
+        let _ = anstyle::Style::new().fg_color(Some(ansi_from_index(fgi).into())).write_to(&mut e);
+        assert!(call_is(&w, want, &e), "the foreground code comes first");
+    }
+    if fgi < 16 { want += 1; }
+    if fail_at >= want && bgi < 16 && (fail_at >= want) && w.calls > want {
+        let mut e = Exp { b: [0; 8], len: 0 };
+        let _ = anstyle::Style::new().bg_color(Some(ansi_from_index(bgi).into())).write_to(&mut e);
+        assert!(call_is(&w, want, &e), "the background code follows the foreground code");
+    }
+    if bgi < 16 { want += 1; }
+    let data_idx = want;
     match &r {
         Ok(n) => {
-            assert!(w.fail_at >= w.calls, "a coloured write succeeds only if no inner write failed");
-            assert!(w.data_calls == 1 && *n == w.data_taken, "a coloured write returns the number of data bytes the writer accepted");
-            assert!(!w.overflow, "codes, data and reset fit the expected size");
-            // codes before the data interpret to exactly the requested colours
-            let before = sgr_bytes(M_DEFAULT, &w.log, w.data_at, false);
-            let want = MStyle { fg: mc(fgi), bg: mc(bgi), ul: MColor::Default, eff: 0 };
-            assert!(before == Pure::Ok(want), "the bytes before the data are pure SGR selecting exactly the requested colours");
-            if !styled {
-                assert!(w.data_at == 0 && w.len == *n, "no code at all is emitted when neither colour is given");
-            }
-            // the data bytes unchanged
-            let mut k = 0;
-            while k < 2 {
-                if k < *n {
-                    assert!(w.log[w.data_at + k] == data[k], "the data bytes are forwarded unchanged");
-                }
-                k += 1;
-            }
-            // what follows the data is a reset (and only when a colour was given)
-            let mut tail = [0u8; CAP];
-            let tstart = w.data_at + *n;
-            let mut t = 0;
-            let mut q = 0;
-            while q < CAP {
-                if tstart + q < w.len {
-                    tail[q] = w.log[tstart + q];
-                    t = q + 1;
-                }
-                q += 1;
-            }
+            assert!(fail_at >= w.calls, "a coloured write succeeds only if no inner write failed");
+            assert!(w.data_call == data_idx && w.ptr[data_idx] == data.as_ptr() as usize && w.len[data_idx] == dlen, "the data bytes are handed over unchanged, in one write, right after the codes (no code at all when neither colour is given)");
+            assert!(*n == w.data_taken, "a coloured write returns the number of data bytes the writer accepted");
             if styled {
-                assert!(t > 0 && sgr_bytes(want, &tail, t, false) == Pure::Ok(M_DEFAULT), "the data is followed by a pure-SGR reset restoring the default state");
+                let mut e = Exp { b: [0; 8], len: 0 };
+                let _ = anstyle::Style::new().bold().write_reset_to(&mut e);
+                assert!(w.calls == data_idx + 2 && call_is(&w, data_idx + 1, &e), "the data is followed by exactly one reset when a colour was given");
             } else {
-                assert!(t == 0, "nothing follows the data when no colour was given");
+                assert!(w.calls == 1, "nothing but the data is written when neither colour is given");
             }
         }
         Err(e) => {
-            assert!(e.kind() == ErrorKind::Other && w.fail_at < w.calls, "an inner error is returned with its kind");
+            assert!(e.kind() == ErrorKind::Other && fail_at < w.calls && w.calls == fail_at + 1, "an inner error is returned with its kind and nothing is written after it");
         }
     }
-    if w.fail_at < w.calls {
+    if fail_at < w.calls {
         assert!(r.is_err(), "an inner error is never turned into success");
     }
     if fail_at > 6 {
@@ -174,10 +194,12 @@ fn colored(fgi: u8, bgi: u8, via_trait: bool, fail_at: usize) {
 // Colour pairs and the failing inner call are concrete per harness (symbolic pairs or a symbolic
 // failure point through core::fmt::write do not finish in CBMC, measured); the data bytes and the
 // accepted prefix of the data stay symbolic.  The bytes of every colour code come from
-// AnsiColor::render_fg/render_bg, verified for all 16 colours in C05 (render_buffer_ansi).
+// AnsiColor::render_fg/render_bg, verified for all 16 colours in C05 (render_buffer_ansi16).
 macro_rules! case {
     ($name:ident, $fg:expr, $bg:expr, $tr:expr, $fail:expr) => {
-        #[cfg_attr(kani, kani::proof)]
+        // the bound covers std's write_all loop (whose trip count CBMC cannot always fold) and the
+        // 12-entry effect table walked by Style::write_to
+        #[cfg_attr(kani, kani::proof, kani::unwind(14))]
         #[cfg_attr(not(kani), test)]
         fn $name() {
             colored($fg, $bg, $tr, $fail);
